@@ -96,7 +96,7 @@ CHECKS.update({
         technique="bounded-exhaustive enumeration of values of a fixed type family x serializer configurations through the real serializer and deserializer (round-trip oracle)",
     ),
     "C13": dict(
-        text="every value of the C06 family, every string <=3/4 over {< > & ' \" ] - NUL newline space a} in every payload position INCLUDING out-of-domain strings, and 88 out-of-domain cases (18 hostile names as map key / root name / run-time field name / struct name, markup-named unit variants in four positions, Option without skip, nested sequences, tuples, bytes, unit, top-level primitives) x 24 serializer configurations: the call returns Err or the output is read by Reader with all checks on without error, properly nested, attribute lists iterate, every name satisfies an independent XML Name predicate, and the markup skeleton equals that of the same value with a harmless same-shape placeholder payload (no injection)",
+        text="every value of the C06 family, every string <=3/4 over {< > & ' \" ] - NUL newline space a} in every payload position INCLUDING out-of-domain strings, and 92 out-of-domain cases (18 hostile names as map key / root name / run-time field name / struct name, markup-named unit variants in four positions, Option without skip, nested sequences, tuples, bytes, unit, top-level primitives) x 24 serializer configurations: the call returns Err or the output is read by Reader with all checks on without error, properly nested, attribute lists iterate, every name satisfies an independent XML Name predicate, and the markup skeleton equals that of the same value with a harmless same-shape placeholder payload (no injection)",
         note="refusing a value is allowed by this property; defect F4 found by this check was repaired (fix: commit 3081cc7)",
         technique="bounded-exhaustive enumeration of values/payloads/names through the real serializer, judged by the real strict reader, an independent Name predicate and a skeleton-invariance (metamorphic) oracle",
     ),
